@@ -149,13 +149,20 @@ type rendered struct {
 	nodeLine, nodeCol int
 }
 
+// sameArgs: every substatement gets the same argument (a repetition is then word for word)
+var sameArgs bool
+
 func render(c *cas) rendered {
 	var kids []string
 	for i, k := range c.Kids {
+		a := argOf(i + 1)
+		if sameArgs {
+			a = "same"
+		}
 		if kwType[k] != "" {
-			kids = append(kids, "  "+minimal(k, argOf(i+1)))
+			kids = append(kids, "  "+minimal(k, a))
 		} else {
-			kids = append(kids, fmt.Sprintf("  %s %s;", k, argOf(i+1)))
+			kids = append(kids, fmt.Sprintf("  %s %s;", k, a))
 		}
 	}
 	body := strings.Join(kids, "\n")
@@ -339,6 +346,18 @@ func judge(c *cas) *core.Verdict {
 	if err != nil {
 		if c.Built.Ok {
 			return fail("rejects-valid", "the specification builds this node, the library reports %q", err)
+		}
+		// what is wrong with a node does not depend on how its substatements' arguments are spelled: rejected also
+		// when all of them carry the same argument (a second occurrence is then a verbatim repetition)
+		if c.Ptype != "Top" {
+			sameArgs = true
+			r2 := render(c)
+			sameArgs = false
+			if err2 := yang.NewModules().Parse(r2.text, "f.yang"); err2 == nil {
+				r = r2
+				return fail("accepts-invalid", "the specification rejects this node (%s), the library built it when every substatement has the same argument", c.Blame.What)
+			}
+			v.N = 2
 		}
 		return v
 	}
